@@ -96,6 +96,19 @@ def _value_shapes():
 
 URL_FORMS = ['x.png', 'a b.png', 'http://h/p?q=1&r=2#f', '', "o'k", 'p(1)', 'data:image/png;base64,AA==', '../up/x.png', '#f', '/abs/x.png', '//h2/x.png', 'a%20b.png', 'é.png', 'x.png?v=1#f']
 
+# path segments that LOOK like the dot segments '.' and '..' but are ordinary names: a name beginning with one dot (dot file / dot directory), beginning with two dots,
+# made of three dots, ending in a dot.  (RFC 3986 5.2.4 gives a meaning to the complete segments '.' and '..' only.)
+DOT_NAMES = ('.h', '..u', '...', 'k.')
+DOT_PREFIXES = ('', 'i/', '../', '.d/')
+DOT_LASTS = ('.h.png', '..u.png', '...', 'k.', '.', '..')
+DOT_SUFFIXES = ('', '/', '?v=1#f')
+
+
+def dot_forms(prefix=None):
+    """relative URLs whose LAST segment is a dot-like name (or a real dot segment), behind every prefix (none, a directory, the parent, a dot directory), as written / with a
+    trailing slash / with query and fragment"""
+    return [p + n + s for p in (DOT_PREFIXES if prefix is None else (prefix,)) for n in DOT_LASTS for s in DOT_SUFFIXES]
+
 
 def _contexts():
     """[(label, function(items1, items2) -> rule)]: items2 is used by the contexts with two declaration blocks"""
@@ -148,7 +161,7 @@ def url_sheets(tier, seed):
                     label += ',' + second[0]
                 out.append(('%s/%s/imports%d' % (label, sl, len(imp)), tuple(imp) + tuple(rules)))
         k += 1
-    for form in URL_FORMS:
+    for form in URL_FORMS + dot_forms():
         out.append(('urlform/%r' % form, (G.Import('i.css'), G.Style([G.Sel(G.C('a'))], [G.Decl('background', G.V(_u(form), _u('k.png')))]))))
         if form == '':
             continue   # '@import "";' is not an import of anything
@@ -441,10 +454,25 @@ def _segments(names, n):
     return out
 
 
+def _paths(names, n):
+    """every path of 1..n segments over names"""
+    return ['/'.join(combo) for k in range(1, n + 1) for combo in itertools.product(names, repeat=k)]
+
+
+def _uniq(xs):
+    return list(dict.fromkeys(xs))
+
+
 def replacer_cases(tier):
     bases = [d + 'b.css' for d in _segments(('x', 'y', '..', '.'), 3)] + ['/p/q/b.css', 'http://o/p/b.css', '//o/p/b.css', 'x/b.css?v=1', 'b.css#f']
     urls = [d + 'k.png' for d in _segments(('i', 'j', '..', '.'), 3)] + URL_FORMS + ['i/', '../', './', '.', '..', '?q=1', 'i/k.png#f', 'mailto:x@y', 'i//k.png', 'i/k.png?a=/b/../c']
-    return bases, urls
+    # the dot-like names at EVERY position (also last: the paths above all end in k.png or in a special form): import hrefs with dot-like directories and dot-like file names,
+    # URLs = every path of <= 3 segments over {a name, '.', '..', the dot-like names} as written and with a trailing slash, the <= 2 segment ones also with query + fragment
+    seg = ('i', '..', '.') + DOT_NAMES
+    # (quick: the dot-like FILE names of the import below directories of <= 1 segment only)
+    bases += [d + f for f in ('b.css', '.b.css', '..b.css', 'b.') for d in _segments(('x', '..', '.') + DOT_NAMES, 2 if (f == 'b.css' or tier == 'thorough') else 1)]
+    urls += [p + s for p in _paths(seg, 3) for s in ('', '/')] + [p + '?v=1#f' for p in _paths(seg, 2)]
+    return _uniq(bases), _uniq(urls)
 
 
 def _w_replacer(args):
@@ -482,7 +510,8 @@ def _w_replacer(args):
 def _shape(u):
     """shape of a URL: segments with names replaced"""
     sp = urlsplit(u)
-    segs = ['..' if s == '..' else '.' if s == '.' else '' if s == '' else 'n' for s in sp.path.split('/')]
+    # (d: a name that begins with a dot, e: a name that ends in a dot - names, not dot segments)
+    segs = ['..' if s == '..' else '.' if s == '.' else '' if s == '' else 'd' if s.startswith('.') else 'e' if s.endswith('.') else 'n' for s in sp.path.split('/')]
     return ('S' if sp.scheme else '') + ('//' if sp.netloc else '') + '/'.join(segs) + ('?' if sp.query else '') + ('#' if sp.fragment else '')
 
 
@@ -491,6 +520,8 @@ def _shape(u):
 LOCS = {
     'same': '%s', 'dot': './%s', 'child': 'sub/%s', 'child2': 'sub/deep/%s', 'parent': '../%s', 'sibling': '../sib/%s', 'grand': '../../%s',
     'rootrel': '/q/%s', 'schemerel': '//h/q2/%s', 'abs': 'http://h/q3/%s', 'otherhost': 'http://other/o/%s', 'schemerel-other': '//other2/o/%s',
+    # dot-like names in the import href: a dot directory, a dot file, a directory named '...' below the parent
+    'dotdir': '.hid/%s', 'dotfile': '.%s', 'dots-sibling': '../.../%s',
 }
 MEDIA = {
     'none': (), 'all': ((None, 'all', ()),), 'screen': ((None, 'screen', ()),), 'print': ((None, 'print', ()),), 'list': ((None, 'print', ()), (None, 'tv', ())),
@@ -872,9 +903,10 @@ def vfs_single(tier):
     return out
 
 
+DOT_LOCS = ('dotdir', 'dotfile', 'dots-sibling')
 CHAIN_LOCS = ('same', 'child', 'parent', 'sibling', 'rootrel', 'otherhost')
 CHAIN_MEDIA = ('none', 'screen')
-CHAIN_URLS = BENIGN_URLS + (('FN', 2),)
+CHAIN_URLS = BENIGN_URLS + (('FN', 2), '.%s.png', '.d/..%s')   # (the last two: dot-like last segments, re-based once per edge)
 
 
 def vfs_chains(tier, seed):
@@ -885,7 +917,9 @@ def vfs_chains(tier, seed):
     for d in depths:
         if d == 2 and tier != 'quick':
             # depth 2 in the thorough tier: every location x every media on both edges
-            combos = list(itertools.product(itertools.product(LOCS, repeat=2), itertools.product(MEDIA, repeat=2)))
+            # (pairs holding one of the dot-name locations: media on / off only)
+            combos = [(ll, mm) for ll in itertools.product(LOCS, repeat=2) for mm in itertools.product(MEDIA, repeat=2)
+                      if not (set(ll) & set(DOT_LOCS)) or set(mm) <= set(CHAIN_MEDIA)]
         else:
             combos = list(itertools.product(itertools.product(CHAIN_LOCS, repeat=d), itertools.product(CHAIN_MEDIA, repeat=d)))
         limit = {2: None, 3: 260 if tier == 'quick' else None, 4: None}[d]
@@ -931,6 +965,9 @@ def vfs_urlforms(tier):
         for form in URL_FORMS + ['i/', 'i/k.png?a=/b/../c', './d/../e.png', '../../../../../up.png']:
             a = node('a', 'style', urls=(form, 'k.png'))
             out.append(('urlform/%s/%r' % (loc, form), node('m', 'style', [(loc, 'none', a)])))
+        for p in DOT_PREFIXES:
+            # the dot-like last segments: one imported sheet per prefix holding all of them (every URL is compared on its own)
+            out.append(('urlform/%s/dot-like-last-segment-after-%r' % (loc, p), node('m', 'style', [(loc, 'none', node('a', 'style', urls=tuple(dot_forms(p)) + ('k.png',)))])))
         for d in FN_DEPTHS:
             out.append(('urlform/%s/function-depth%d' % (loc, d), node('m', 'style', [(loc, 'none', node('a', 'style', urls=(('FN', d),)))])))
     return out
@@ -1358,9 +1395,10 @@ def urls_and_replacement(ctx):
     _report(ctx, results, 'getUrls / replaceUrls on generated sheets',
             'sheets with url() values in 8 contexts (style rule at top level / in @media / in nested @media, @page, margin box, @page + margin boxes, @font-face, @page in @media) alone and in every ordered '
             'pair, 6 value shapes, two declarations of the same property per block, 0 / 1 / 2 @import rules; %d URL forms as url() and as @import '
-            'target; every sheet of bounded/gen.py holding a URL; per sheet: getUrls, identity replacer, recording+tagging replacer, ignoreImportRules=True, the CSSStyleDeclaration overload; '
+            'target (among them %d with a dot-like last segment - a name beginning with one / two dots, three dots, a name ending in a dot, the dot segments - behind no prefix / a directory / ../ / a dot '
+            'directory, as written / with trailing slash / with query and fragment); every sheet of bounded/gen.py holding a URL; per sheet: getUrls, identity replacer, recording+tagging replacer, ignoreImportRules=True, the CSSStyleDeclaration overload; '
             'oracle = the URL list of the abstract sheet (gen.urls order: imports, then document order); distinct = sheet shape; the 6 value shapes: one URL, two URLs, URLs inside function arguments, mixed, '
-            'url() two function levels deep (first argument of the inner function) next to URLs of levels 1 and 0, url() at levels 0, 1, 2, 3 in one value' % len(URL_FORMS),
+            'url() two function levels deep (first argument of the inner function) next to URLs of levels 1 and 0, url() at levels 0, 1, 2, 3 in one value' % (len(URL_FORMS) + len(dot_forms()), len(dot_forms())),
             '%d sheets (%s)' % (len(sheets), 'pairs of contexts thinned to every 2nd shape / 3rd import variant' if ctx.tier == 'quick' else 'all pairs of contexts x shapes x import variants'),
             [{'label': sheets[5][0], 'text': gen.render(sheets[5][1])}], t0)
 
@@ -1374,7 +1412,10 @@ def replacer(ctx):
     _report(ctx, results, 'cssutils.Replacer over all pairs of paths',
             'import hrefs: every directory path of <= 3 segments over {x, y, .., .} + b.css, root-relative, absolute, scheme-relative, with query, with fragment (%d); URLs: every path of <= 3 segments over '
             '{i, j, .., .} + k.png and the special forms (%d): query, fragment, fragment only, empty, absolute, scheme-relative, root-relative, data:, mailto:, space, %%20, non-ASCII, trailing slash, '
-            'dot segments; combined sheet at %s; oracle = urllib.parse.urljoin; distinct = (shape of the href, shape of the URL)' % (len(bases), len(urls), DEEP),
+            'dot segments; plus the DOT-LIKE NAMES %s (ordinary names that begin with one / two dots, consist of three dots, end in a dot) at every position: import hrefs with directories of <= 2 segments over '
+            '{x, .., .} + these names and the file names b.css / .b.css / ..b.css / b. (%s), URLs = every path of <= 3 segments over {i, .., .} + these names as written and with a trailing slash, those of <= 2 segments '
+            'also with query + fragment; combined sheet at %s; oracle = urllib.parse.urljoin; distinct = (shape of the href, shape of the URL), a shape tells name / dot-leading name / dot-trailing name / . / .. per segment'
+            % (len(bases), len(urls), ', '.join(DOT_NAMES), 'all combinations' if ctx.tier == 'thorough' else 'the dot-like file names below <= 1 directory', DEEP),
             '%d x %d pairs' % (len(bases), len(urls)), [{'base': bases[7], 'url': urls[9]}], t0, exhaustive=True)
 
 
@@ -1389,11 +1430,12 @@ def flattening(ctx):
         counts[label.split('/')[0]] = counts.get(label.split('/')[0], 0) + 1
     _report(ctx, results, 'resolveImports / csscombine over virtual file systems',
             'virtual file systems {URL: abstract sheet} served by a counting fetcher, root at %s: (single) one @import x %d target locations (same / ./ / child / grandchild / parent / sibling / '
-            'grandparent directory, root-relative, scheme-relative, absolute, other host, scheme-relative other host) x %d media (none, all, one type, a list, a media query) x %d target bodies + missing target; '
+            'grandparent directory, root-relative, scheme-relative, absolute, other host, scheme-relative other host, a dot directory, a dot file, a directory named ... below the parent) x %d media (none, all, one type, a list, a media query) x %d target bodies + missing target; '
             '(chain) import chains of depth 2-%d with every edge in one of %d locations x media on/off (%s); (branch) root -> [A -> [C], B] with unwrappable bodies '
-            '(@font-face, @namespace, @media) and missing targets at every place x media on every edge; (urlform) every URL form in an imported sheet, and url() at function depth 1, 2, 3 (one URL per level), x every import location; every sheet of a chain holds url() values 1 and 2 function levels deep; (cycle) self import, 2- and 3-cycles, '
+            '(@font-face, @namespace, @media) and missing targets at every place x media on every edge; (urlform) every URL form in an imported sheet, the %d URLs with a dot-like last segment (.h.png, ..u.png, ..., k., ., .. behind no prefix / i/ / ../ / .d/, as written / with trailing slash / with query and fragment; one imported sheet per prefix), '
+            'and url() at function depth 1, 2, 3 (one URL per level), x every import location; every sheet of a chain holds url() values 1 and 2 function levels deep and two URLs with a dot-like last segment; (cycle) self import, 2- and 3-cycles, '
             'a diamond; each run through resolveImports, csscombine(url=, minify=True) and csscombine(cssText=, href=, minify=False); oracle = expand() of this module (urljoin for every URL); '
-            'distinct = file system' % (ROOT, len(LOCS), len(MEDIA), len(BODIES), 3 if ctx.tier == 'quick' else 4, len(CHAIN_LOCS), 'depth 2 complete, depth 3: pairwise + seeded sample' if ctx.tier == 'quick' else 'depth 2 over all 12 locations x 5 media, depths 3 and 4 complete'),
+            'distinct = file system' % (ROOT, len(LOCS), len(MEDIA), len(BODIES), 3 if ctx.tier == 'quick' else 4, len(CHAIN_LOCS), 'depth 2 complete, depth 3: pairwise + seeded sample' if ctx.tier == 'quick' else 'depth 2 over all %d locations x %d media (pairs with a dot-name location: media on / off), depths 3 and 4 complete' % (len(LOCS), len(MEDIA)), len(dot_forms())),
             '%d file systems: %s' % (len(specs), ', '.join('%s %d' % kv for kv in sorted(counts.items()))),
             [{'label': specs[100][0], 'files': {u: gen.render(s) for u, s in _build(specs[100][1]).items()}}], t0)
 
